@@ -464,6 +464,9 @@ def _r4(repo, L, m, ba):
     qcalls = [c for c in repo.calls_in(cut) if isinstance(c.func, ast.Attribute) and c.func.attr == qc.name]
     is_trim = lambda c: isinstance(c, ast.Call) and isinstance(c.func, ast.Attribute) and c.func.attr == "trim_fragment"  # noqa: E731
     loops_t = [n for n in cut.node.body if isinstance(n, ast.For) and any(is_trim(c) for c in walk_shallow(n))]
+    any_trim = [c for c in walk_shallow(cut.node) if is_trim(c)]
+    if len(loops_t) != 1 and any_trim:
+        raise AnalysisError(f"{cut.short}: the pieces are not cut in one top-level for-loop (e.g. a comprehension over parallel flag lists): the flow of pieces into the QC is not understood")
     if len(qcalls) != 1 or len(loops_t) != 1:
         ok, why = False, f"{len(loops_t)} cutting loop(s) / {len(qcalls)} QC call(s) in cut_fragments"
     else:
@@ -771,6 +774,29 @@ def _r5(repo, L, m, ba):
         return
     sv = outer[0].target.id
     inner = [n for n in outer[0].body if isinstance(n, ast.For)]
+    if not inner:
+        # the per-fragment loop may sit under a condition (a guard clause written or normalised as `if ...:`): it must be
+        # one that only excludes scaffolds without rows
+        nested = [n for n in walk_shallow(outer[0]) if isinstance(n, ast.For) and norm(n.iter) in (f"{sv}.idx_fragments()", f"enumerate({sv}.rows)")]
+        if len(nested) == 1:
+            guards = [a for a in ancestors(nested[0]) if isinstance(a, ast.If) and contains(outer[0], a)]
+            bad_g = []
+            for g in guards:
+                side = any(nested[0] is s_ or contains(s_, nested[0]) for s_ in g.body)
+                facts = [(norm(t).replace(" ", ""), v) for t, v in cond_facts(g.test, side)]
+                if not all(t in (f"{sv}.rows", f"len({sv}.rows)") and v for t, v in facts):
+                    bad_g.append(norm(g.test)[:60])
+            if bad_g:
+                L.fail("R5", addm.short + ":no-scaffold-skip", f"the fragments of an input scaffold are only visited when {bad_g}: otherwise the scaffold is skipped as a whole and contigs of it that no lookup returned are never re-added (lost)", addm.loc(), witness={"input": "a scaffold the Pretext map covers only in part (texel-snapped tail contig)"})
+                return
+            # continue the analysis inside the guard
+            holder = guards[0] if guards else None
+            if holder is not None:
+                blk_ = holder.body if any(nested[0] is s_ or contains(s_, nested[0]) for s_ in holder.body) else holder.orelse
+                outer = [ast.copy_location(ast.For(target=outer[0].target, iter=outer[0].iter, body=blk_, orelse=[]), outer[0])]
+                inner = [n for n in outer[0].body if isinstance(n, ast.For)]
+    if not any(norm(i_.iter) in (f"{sv}.idx_fragments()", f"enumerate({sv}.rows)") for i_ in inner) and any(isinstance(c, ast.Call) and isinstance(c.func, ast.Attribute) and c.func.attr in ("idx_fragments", "fragments") and is_name(c.func.value, sv) for c in walk_shallow(outer[0])):
+        raise AnalysisError(f"{addm.short}: the scaffold's fragments are visited, but not by a plain loop over idx_fragments() in the scaffold loop (e.g. collected by a comprehension first): re-add logic not understood")
     # no input scaffold is skipped as a whole (other than an empty one): every skip statement of the outer loop body
     # that is not inside the per-fragment loop must be control dependent on the scaffold having no rows
     oks, whys = True, ""
